@@ -203,13 +203,30 @@ def rerun_groups(results, max_per_tree=40, rng=None):
                 left = [e for e in doom if [e["id"], e["route"]] not in [[q[0], q[1]] for q in req]]
             else:
                 left = [e for e in doom if e["id"] == "fail" or not e["term"]]
-            picked.append((n, sched, fates, bool(left)))
+            covered = {q[0] for q in req} if req else {e["id"] for e in doom if e["term"] and e["id"] != "fail"}
+            if any(e["cls"] == "expr" and e["task"] not in covered for e in pre["errs"]):
+                left = left or [True]        # a run-time expression error of the first run stands
+            # terminal records of the final state that descend from the superseded executions of the
+            # requested tasks: distance 1 = direct successor (those the rerun is meant to reset)
+            fin_obs = r["tree"]["nodes"][n - 1]["obs"]
+            if req:
+                olds = {pre["ptr"].get("%s__r%d" % (q[0], q[1])) for q in req}
+            else:
+                olds = {i for i, e in enumerate(pre["seq"]) if e["term"] and e["st"] in ("failed", "timeout", "abandoned")}
+            olds.discard(None)
+            depth = {i: 0 for i in olds}
+            for i, e in enumerate(fin_obs["seq"]):
+                ds = [depth[p] + 1 for p in e["prev"].values() if p in depth]
+                if ds and i not in olds:
+                    depth[i] = min(ds)
+            stale = [depth[i] for i, e in enumerate(fin_obs["seq"]) if e["term"] and i in depth and depth[i] > 0]
+            picked.append((n, sched, fates, bool(left), min(stale) if stale else 99))
         if len(picked) > max_per_tree:
             picked = rng.sample(picked, max_per_tree)
-        for n, sched, fates, partial in picked:
-            cands.append((r, n, sched, fates, partial))
+        for n, sched, fates, partial, sd in picked:
+            cands.append((r, n, sched, fates, partial, sd))
     cache, jobs = {}, []
-    for r, n, sched, fates, partial in cands:
+    for r, n, sched, fates, partial, sd in cands:
         key = (r["d"]["name"], tuple(sorted((t, f[0]) for t, f in fates.items())))
         if key not in cache:
             dd = dict(r["d"])
@@ -222,7 +239,7 @@ def rerun_groups(results, max_per_tree=40, rng=None):
     with mp.Pool(16) as pool:
         outs = pool.map(_clean_job, jobs, chunksize=2)
     groups, skipped = [], 0
-    for r, n, sched, fates, partial in cands:
+    for r, n, sched, fates, partial, sd in cands:
         key = (r["d"]["name"], tuple(sorted((t, f[0]) for t, f in fates.items())))
         fins, trunc = outs[cache[key]]
         if trunc or isinstance(fins, dict) or not fins:
@@ -236,7 +253,7 @@ def rerun_groups(results, max_per_tree=40, rng=None):
                 continue
             seen.add(k)
             ms.append({"role": "clean", "fin": f, "sched": []})
-        ms[0]["fin"] = dict(ms[0]["fin"], partial=partial)
+        ms[0]["fin"] = dict(ms[0]["fin"], partial=partial, stale_min_depth=sd)
         groups.append({"kind": "rerun", "def": X.tla_def(r["d"]), "members": ms,
                        "replay": {"def": r["d"], "lang": r["lang"], "tok": r["tok"], "schedule": sched,
                                   "clean_fates": fates}})
